@@ -63,7 +63,7 @@ class FuncInfo:
 
     @property
     def is_property(self):
-        return "property" in self.decorators
+        return any(d == "property" or d.rsplit(".", 1)[-1] == "cached_property" for d in self.decorators)
 
     @property
     def params(self) -> List[str]:
